@@ -108,6 +108,15 @@ Theorem C08_original_bytes_independent_of_cache_and_order :
   original_marshal m (h_otv (map_all_tags c1 r1 ts)) = original_marshal m (h_otv (map_all_tags c2 r2 ts')).
 Proof. exact original_bytes_independent. Qed.
 
+(* ... and regardless of what the reused per-worker scratch buffer held (previous events, the mapped key left there
+   by tags_hash sharding): what OriginalHash(scratch) feeds to xxh3 is the same for any two scratch contents, caches
+   and tag orders *)
+Theorem C08_hashed_bytes_independent_of_scratch_cache_and_order :
+  forall s1 s2 m c1 r1 c2 r2 ts ts',
+  Permutation ts ts' -> NoDup (map t_index ts) ->
+  original_hash_bytes s1 m (h_otv (map_all_tags c1 r1 ts)) = original_hash_bytes s2 m (h_otv (map_all_tags c2 r2 ts')).
+Proof. exact hashed_bytes_independent. Qed.
+
 (* "Events are dropped only while the receive queue has a gap, during shutdown, or on a secondary shard before
    its configured start time" *)
 Theorem C08_drops_only_when_gap_or_stopped_or_secondary_early :
@@ -195,6 +204,13 @@ Qed.
 
 (* the not-late, not-clamped slot of a 15-second row: a function of (ts, res, hash) *)
 Example C08_nonvacuous_nominal : nominal_slot 1700000003 15 2147483648 = 1699999995 + 15 + 7 /\ nominal_slot 1700000003 1 0 = 1700000003.
+Proof. vm_compute. split; reflexivity. Qed.
+
+Example C08_nonvacuous_scratch :
+  original_hash_bytes [1; 2; 3; 200] 77 (h_otv (map_all_tags (fun _ => None) (fun _ => 0) [mkTag 0 KPlain [97]]))
+  = [77; 0; 0; 0; 1; 97; 0] /\
+  original_marshal_append [1; 2; 3; 200] 77 (h_otv (map_all_tags (fun _ => None) (fun _ => 0) [mkTag 0 KPlain [97]]))
+  = [1; 2; 3; 200; 77; 0; 0; 0; 1; 97; 0].
 Proof. vm_compute. split; reflexivity. Qed.
 
 Example C08_nonvacuous_map :
